@@ -29,7 +29,7 @@ def effective(tick, total):
     return ln, t
 
 
-def safe(tick, total, n):
+def safe(tick, total, n, max_events=MAX_EVENTS):
     """the request terminates quickly on the real code"""
     e = effective(tick, total)
     if e is None:
@@ -38,7 +38,7 @@ def safe(tick, total, n):
     if not (t > 0.0):
         return True
     per_span = ln / t
-    return per_span <= MAX_TICKS_PER_SPAN and per_span * max(n, 1) <= MAX_EVENTS
+    return per_span <= MAX_TICKS_PER_SPAN and per_span * max(n, 1) <= max_events
 
 
 def use(start, dur, vel, tick, total, n, k="all"):
@@ -73,6 +73,7 @@ class C20(Property):
     technique = "Lean 4 proof (induction over spans / stack discipline) + bit-exact differential correspondence on the public iterator"
     required_theorems = [
         "stream_shape", "stream_shape_spec", "stream_fuel_exhausted", "event_count", "buffer_irrelevant", "runSeq_buffer_irrelevant",
+        "takeAcc_prefix", "collectAcc_eq_collect", "eventsOf_eq_concat",
         "repeats_all_present", "head_form", "repeat_form", "last_tick_form", "tail_form",
         "same_ticks_every_span", "ticks_mirrored_on_odd_spans", "ticks_respect_min_distance",
         "ticks_at_multiples", "ticks_respect_min_distance_strict", "ticks_chronological", "ticks_fuel_suffices",
@@ -110,8 +111,8 @@ class C20(Property):
         cases = []
         thorough = tier != "quick"
 
-        def add(line, tick, total, n, tags):
-            if n < 0 or not safe(tick, total, n):
+        def add(line, tick, total, n, tags, max_events=MAX_EVENTS):
+            if n < 0 or not safe(tick, total, n, max_events):
                 return
             cases.append(Case(line, tags=tags))
 
@@ -157,7 +158,7 @@ class C20(Property):
                     add(sev(0.0, 500.0, v, t, ln, 3), t, ln, 3, ("cutoff-neighbourhood",))
 
         # random real-valued parameters in playable ranges
-        n_rand = 6000 if not thorough else 200000
+        n_rand = 40000 if not thorough else 200000
         for _ in range(n_rand):
             vel = rng.uniform(0.05, 5.0)
             ln = rng.choice([rng.uniform(10.0, 2000.0), float(rng.randint(10, 1500)), rng.uniform(10.0, 300.0)])
@@ -181,14 +182,14 @@ class C20(Property):
         # hostile values, any field
         specials = [0.0, -0.0, 1.0, -1.0, 0.5, 36.0, 72.0, 1e-3, 1e3, 1e5, 100000.00000000001, 99999.99999999999, 1e6, 1e15, 1e300, -1e300,
                     INF, -INF, NAN, 5e-324, 2.2250738585072014e-308, 0.1, 0.3, 1 / 3, 2 ** 31 * 1.0, 1e-7]
-        n_host = 4000 if not thorough else 100000
+        n_host = 12000 if not thorough else 100000
         for _ in range(n_host):
             f = [rng.choice(specials) if rng.random() < 0.6 else rng.uniform(-2000.0, 2000.0) for _ in range(5)]
             n = rng.choice([0, 1, 2, 3, 4, 7])
-            add(sev(f[0], f[1], f[2], f[3], f[4], n, rng.choice([None, 2])), f[3], f[4], n, ("hostile",))
+            add(sev(f[0], f[1], f[2], f[3], f[4], n, rng.choice([None, 2])), f[3], f[4], n, ("hostile",), 5000)
 
         # sequences of iterators sharing one buffer, some abandoned half-way
-        n_seq = 2500 if not thorough else 60000
+        n_seq = 10000 if not thorough else 60000
         for _ in range(n_seq):
             m = rng.randint(2, 5)
             pre = rng.choice([0, 0, 1, 2, 5])
